@@ -89,7 +89,7 @@ def cell(col, cfgs, tag, pdsmax=200):
     return v, v, lambda ev: concretize(v, ev)
 
 
-def csv_roundtrip(nrows, enc, blocked, shapes=None, pdsmax=200):
+def csv_roundtrip(nrows, enc, blocked, shapes=None, pdsmax=200, second_config=False):
     def h():
         core.FUEL.set(40)
         install_dateutil_stub()
@@ -118,8 +118,18 @@ def csv_roundtrip(nrows, enc, blocked, shapes=None, pdsmax=200):
                 row.setdefault(c, '')
 
         def rp():
-            return {'kind': 'csv', 'args': {'rows': [{c: f(ev) for c, f in w.items()} for w in wit], 'cols': allcols, 'enc': enc, 'blocked': blocked}}
+            return {'kind': 'csv', 'args': {'rows': [{c: f(ev) for c, f in w.items()} for w in wit], 'cols': allcols, 'enc': enc, 'blocked': blocked,
+                                            'second_config': second_config}}
         core.set_fallback(rp, 'C20/concretised')
+        if second_config:
+            # the process has converted a table with the packaged configuration before; this conversion uses a configuration of its own in which
+            # DE48 is plain text (the PDS columns travel in DE62 and the later carriers)
+            import copy
+            warm = RopeFile()
+            m.mci_csv_to_ipm.mci_csv_to_ipm(models.CsvIn(['MTI', 'DE2', 'PDS0023'], [{'MTI': '1240', 'DE2': '4444555566667777', 'PDS0023': 'warm'}]),
+                                            warm, config, out_encoding=enc, no1014blocking=not blocked)
+            config = copy.deepcopy(config)
+            del config['bit_config']['48']['field_processor']
         ipm = RopeFile()
         with guard('mci_csv_to_ipm', 'C20/exception', rp):
             m.mci_csv_to_ipm.mci_csv_to_ipm(models.CsvIn(allcols, rows), ipm, config, out_encoding=enc, no1014blocking=not blocked)
@@ -270,6 +280,8 @@ def obligations(tier):
         obs.append(Ob('cli/three-long-rows/%s/%s' % (ipm_enc or 'default', 'vbs' if noblock else '1014'), cli_long(ipm_enc, noblock), 900,
                       'cli_run of both tools, three rows with a 690..720 character PDS value each (file of more than two blocks), arbitrary content', _funcs,
                       'argparse parsing and the operating system file layer'))
+    obs.append(Ob('rows1/second-configuration/latin_1/vbs', csv_roundtrip(1, 'latin_1', False, shapes=[SHAPES20[1], SHAPES20[2]], second_config=True), 600,
+                  'a conversion with a configuration of its own (DE48 not a PDS carrier) in a process that converted with the packaged configuration before', _funcs))
     if not q:
         # (three rows each of either of two shapes, and three rows of shape 2 alone, do not finish inside 3000 s: three rows of shape 0 only)
         obs.append(Ob('rows3/cp037/1014/shape0', csv_roundtrip(3, 'cp037', True, shapes=[SHAPES20[0]]), 3000, 'three rows of shape 0', _funcs))
